@@ -36,26 +36,32 @@ Proof. intros M. exact (@framing M). Qed.
 (* The reader-loop machine delivers exactly that and stays alive and open, provided no handler
    raises CancelledError. *)
 Theorem C02_reader_framing : forall (M : Type) obf (D : bytes -> option M) h,
-  (forall dl m, h dl m <> HCancels) ->
+  handlers_never_cancel h ->
   forall kbs chunks, Forall frame_ok kbs ->
   concat chunks = concat (map (fun kb => wframe obf (fst kb) (snd kb)) kbs) ->
   let s := rrun obf D h (map Chunk chunks) in
   rdelivered s = filter_map (fun kb => D (plain (snd kb))) kbs /\ rbuf s = [] /\ rrunning s = true /\ rclosed s = false.
 Proof. intros M obf D h Hh. exact (reader_framing obf D h Hh). Qed.
 
-(* No input stops the reader silently: if the reader task has ended, the connection is closed --
-   under the hypothesis that no handler raises CancelledError (established by testing only). *)
-Theorem C02_reader_liveness_partial : forall (M : Type) obf (D : bytes -> option M) h,
-  (forall dl m, h dl m <> HCancels) ->
+(* No input stops the reader silently: whatever bytes arrive, in whatever segmentation, followed by
+   EOF / read errors or not, if the reader task has ended then the connection is closed.  The one
+   hypothesis is [handlers_never_cancel] (C02/Model.v): no message handler lets a CancelledError /
+   BaseException escape into the reader task.  Python cannot rule that out by construction (both
+   `except Exception` layers let it pass), so it is a property of the handlers: it is TESTED on every
+   run by delivering every message class twice to a fully wired client (it failed for
+   WishlistInterval before the F07 repair; the witness is replayed on every run). *)
+Theorem C02_reader_liveness : forall (M : Type) obf (D : bytes -> option M) h,
+  handlers_never_cancel h ->
   forall evs, rrunning (rrun obf D h evs) = false -> rclosed (rrun obf D h evs) = true.
-Proof. intros M obf D h Hh. exact (liveness_partial obf D h Hh). Qed.
+Proof. intros M obf D h Hh. exact (liveness obf D h Hh). Qed.
 
-(* Without that hypothesis the statement is false: the handler outcome table of the current code
-   (SearchManager._on_wish_list_interval awaits the task it has just cancelled: CancelledError on the
-   second WishlistInterval) ends the reader while the connection stays open.  Finding F07. *)
-Theorem C02_reader_liveness_refuted : exists (h : list N -> N -> hout) (evs : list ev),
-  let s := rrun false id_of h evs in rrunning s = false /\ rclosed s = false /\ rdelivered s = [104; 104].
-Proof. exact liveness_refuted. Qed.
+(* non-vacuity / necessity of the hypothesis: an instance violating it violates the conclusion *)
+Example C02_reader_liveness_hypothesis_needed :
+  ~ handlers_never_cancel h_cancel_second /\
+  (let s := rrun false id_of h_cancel_second [Chunk wish_frame; Chunk (wish_frame ++ wish_frame)] in
+   rrunning s = false /\ rclosed s = false) /\
+  handlers_never_cancel (fun (_ : list N) (_ : N) => HRaises).
+Proof. split; [exact (proj1 hypothesis_needed)|]. split; [exact (proj2 hypothesis_needed)|]. intros dl m. discriminate. Qed.
 
 (* Accept path: an undecodable / non-init / unknown-ticket first frame (or EOF / read error) closes
    that connection and leaves the registry of the other connections as it was. *)
